@@ -83,6 +83,9 @@ def iterate(root, r):
     if r.get("passes"):
         r2 = dict(r)
         r2.pop("passes")
+        if r["iface"] == "tf":
+            # a tf.data.Dataset is re-iterable: passes over the same returned object, then one over a freshly built one
+            return iterate_ds(ds, dict(r2, reiterate=r["passes"])) + [iterate_ds(ds, r2)]
         return [iterate_ds(ds, r2) for _ in range(r["passes"])]
     return iterate_ds(ds, r)
 
@@ -265,8 +268,28 @@ def iterate_ds(ds, r):
     elif iface == "tf":
         if r.get("limit") is not None:
             kw["custom_metadata_type_limit"] = r["limit"]
-        tfds = ds.as_tfdataset(batch_size=0, file_parallelism=r.get("file_parallelism", 2), parallelism=1, prefetch=1, **kw)
-        consume(tfds)
+        bsz = r.get("batch", 0)
+        tfds = ds.as_tfdataset(batch_size=bsz, file_parallelism=r.get("file_parallelism", 2), parallelism=1, prefetch=1, **kw)
+
+        def rows(t):
+            """Examples of a tf.data.Dataset of batches (batch_size > 0) or of single examples."""
+            for b in t:
+                if not bsz:
+                    yield b
+                    continue
+                a = (b["a"] if isinstance(b, dict) else b).numpy()
+                for k in range(a.shape[0]):
+                    yield {"a": a[k]}
+        if r.get("reiterate"):
+            # the SAME returned object is iterated several times (epochs of a training loop, two take() calls)
+            passes = []
+            for _p in range(r["reiterate"]):
+                del out[:]
+                del objs[:]
+                consume(rows(tfds))
+                passes.append(list(out))
+            return passes
+        consume(rows(tfds))
     else:
         raise ValueError(iface)
     if r.get("hold"):
